@@ -117,6 +117,29 @@ StrictMove = make_strict(MOVE_PROTOCOL, "move")
 StrictCriteria = make_strict(CRIT_PROTOCOL, "crit")
 
 
+class StrictMoveEqual(StrictMove):
+    """a user move with VALUE equality (two instances configured alike compare equal and hash alike): the driver tells
+    objects apart by identity, never by what the user's `__eq__` says"""
+
+    def __eq__(self, other):
+        return isinstance(other, StrictMove)
+
+    def __hash__(self):
+        return 7
+
+
+class StrictMoveUnhashable(StrictMove):
+    """a user move that defines `__eq__` and nothing else (a plain @dataclass): unhashable"""
+
+    def __eq__(self, other):
+        return isinstance(other, StrictMove)
+
+    __hash__ = None
+
+
+MOVE_FLAVOURS = [StrictMove, StrictMove, StrictMoveEqual, StrictMoveUnhashable]
+
+
 def gen_case(rng, ens, tier):
     n = rng.randint(2, 5)
     rows = [[rng.randint(-4, 4) for _ in range(3)] + [0, 0, 0] + [rng.choice([1, 8, 29]), 0, 100 + i, 0, 0, 0] for i in range(n)]
@@ -148,10 +171,11 @@ def gen_case(rng, ens, tier):
         trials.append({"name": e["name"], "truthy": [rng.random() < 0.7 for _ in e["users"]] or [True],
                        "valuekind": rng.randrange(5),
                        "verdict": rng.random() < 0.6, "draws": [rng.randrange(1000) for _ in range(4)],
-                       "scale": rng.choice([1, 1, 2]), "check": rng.random() < 0.85})
+                       "scale": rng.choice([1, 1, 2, 1 + 2.0**-30]), "check": rng.random() < 0.85})
     case["trials"] = trials
     # a user move added to the table AFTER the run has started (it must be notified like the others from then on)
     case["late"] = None
+    case["flavour"] = rng.randrange(4)   # identity-hashed / value-equal / unhashable user moves
     if rng.random() < 0.4 and len(trials) >= 2:
         case["late"] = {"after": rng.randrange(1, len(trials)), "name": "late", "user": nuser}
     return case
@@ -215,7 +239,7 @@ class ProtocolSuite(common.Suite):
         log = []
         nuser = 1 + max([u for e in case["entries"] for u in e["users"]] + [0]) + (1 if case.get("late") else 0)
         bare = [BareMove(u) for u in range(nuser)]
-        users = [StrictMove(b, log) for b in bare]
+        users = [MOVE_FLAVOURS[case.get("flavour", 0) % len(MOVE_FLAVOURS)](b, log) for b in bare]
         crits = {}
         tops = {}
         for k, e in enumerate(case["entries"]):
